@@ -72,13 +72,16 @@ def run_case(case):
     L = dwtu.flen(w)
     f32 = case['dtype'] == 'f32'
     tdt = dwtu.tdt(case['dtype'])
-    per_axis = [dwtu.level_lengths(n, L, mode, J) for n in size]
-    in_d1s = any(dwtu.d1_synthesis(ks, L, mode) for _, ks in per_axis)
+    Ls = c01.axis_lens(case)
+    per_axis = [dwtu.level_lengths(n, L_, mode, J) for n, L_ in zip(size, Ls)]
+    in_d1s = any(dwtu.d1_synthesis(ks, L_, mode) for (_, ks), L_ in zip(per_axis, Ls))
+    L = max(Ls)
     amb = mode == 'periodization' and ambiguous_none(mask, per_axis)
     r.label('dim%d' % dim, mode, 'f32' if f32 else 'f64',
             'odd' if any(n % 2 for n in size) else None,
             'J>=2' if J >= 2 else None, 'L>=20' if L >= 20 else None,
             'some_None' if any(mask) else None,
+            'separate_row_col_wavelets' if case.get('wave_row') else None,
             'all_None' if all(mask) else None,
             'None_with_finer_present' if any(
                 mask[t] and not all(mask[:t]) for t in range(1, J)) else None,
@@ -86,7 +89,7 @@ def run_case(case):
             'ambiguous_None(periodization)' if amb else None)
     r.nontrivial = J >= 2 or any(n % 2 for n in size) or any(mask)
     inv = _inverse(case)
-    lo_shape, hi_shapes = dwtu.pyr_shapes(size, L, mode, J)
+    lo_shape, hi_shapes = dwtu.pyr_shapes_axes(size, Ls, mode, J)
     total = dwtu.pyr_total(lo_shape, hi_shapes)
 
     def mismatch(what, msg):
